@@ -272,6 +272,10 @@ func VGenPayload(kind int, tier int) IKEPayload {
 		return c
 	case TypeEAP:
 		return vGenEAPPayload(tier)
+	case TypeSK:
+		// an (opaque) Encrypted payload as it appears in a chain; its NextPayload field is bookkeeping
+		// that names whatever follows on the wire
+		return &Encrypted{NextPayload: vr.U8(), EncryptedData: vr.Bytes(1 + vDataLen(tier, 0))}
 	}
 	panic("VGenPayload: unsupported kind")
 }
